@@ -340,14 +340,16 @@ theorem afterTx_frame (s : Session) (now : Nat) :
 theorem d1_init {W M : Nat} (hp : POk W M) (t : Option Nat) :
     DirOk W M { windowSize := W, level := W - 1, lastSent := 0, sentAt := t } { level := W, ackSeq := 0 } {} [] [] := by
   have := hp.w1
-  constructor <;> (try simp only [List.length_nil, AckChain, DataChain]) <;> first | trivial | omega | rfl
+  constructor <;> (try simp only [List.length_nil, AckChain, DataChain, Tight, lastAck]) <;>
+    first | trivial | omega | rfl | (intro h; cases h)
 
 theorem d2_init {W M : Nat} (hp : POk W M) (rb : Bool) :
     DirOk W M { windowSize := W, level := W } ((Session.fresh false rb).setup 4 M W).recv {} [] [] := by
   have := hp.w1
   constructor <;>
-    (try simp only [Session.setup, Session.fresh, Bool.false_eq_true, if_false, List.length_nil, AckChain, DataChain]) <;>
-    first | trivial | omega | rfl
+    (try simp only [Session.setup, Session.fresh, Bool.false_eq_true, if_false, List.length_nil, AckChain, DataChain,
+      Tight, lastAck]) <;>
+    first | trivial | omega | rfl | (intro h; cases h)
 
 /-- **the step theorem of the handshake**: from every state of the link reachable from two fresh
 ends no scheduler operation fails (except `send` refusing an empty / over-long message) and the
@@ -476,7 +478,7 @@ theorem phase_step {ra rb : Bool} {ga gb : Option Nat} {l : LMon} (hl : LInv l) 
     · -- the responder's pump: nothing, or a data segment behind the response
       subst hop1
       left
-      rcases endOutgoing_sync hmb.e h.pend h.est h.pre.txB l.now with h0 | ⟨hd, p, e', h1, hlv, hok, hga, he', hgatt⟩
+      rcases endOutgoing_sync hmb.e h.pend h.est h.pre.txB l.now with ⟨h0, _⟩ | ⟨hd, p, e', h1, hlv, hok, hga, he', hgatt, _⟩
       all_goals simp only [LMon.get] at *
       · have hstep : l.step (.poll .b) = .ok (l.set .b { (l.get .b) with e := (l.get .b).e }, .none) := by
           simp only [LMon.step, Mon.step, LMon.get, h0, List.length_nil, Nat.lt_irrefl, if_false]
@@ -522,7 +524,7 @@ theorem phase_step {ra rb : Bool} {ga gb : Option Nat} {l : LMon} (hl : LInv l) 
           simp only [respBytes, ghostRx_hs]
           rfl
         refine ⟨_, _, hstep, .sync ?_⟩
-        refine sync_mk .a ?_ hW ⟨rfl, rfl, rfl⟩ ⟨h.est, h.w, h.m⟩ ?_ ?_
+        refine sync_mk .a ?_ hW ⟨rfl, rfl, rfl⟩ ⟨h.est, h.w, h.m⟩ ?_ ?_ ?_
         · intro x
           cases x
           · refine ⟨rfl, txRep_congr (e := l.a.e) rfl rfl h.pre.txA, ?_, ?_⟩
@@ -539,6 +541,12 @@ theorem phase_step {ra rb : Bool} {ga gb : Option Nat} {l : LMon} (hl : LInv l) 
           rw [h.qab, h.pre.rsB]; exact h.d2
         · show DirOk _ _ l.b.e.s.send ((initSent ra).setup 4 _ _).recv {} dq l.qab
           rw [h.qab]; exact h.d1
+        · -- the initiator's send window is completely open
+          rintro ⟨h0, _⟩
+          have : ((initSent ra).setup 4 (negMtu ga gb rb) (negWin ga gb rb)).send.level = negWin ga gb rb := rfl
+          have h0' : ((initSent ra).setup 4 (negMtu ga gb rb) (negWin ga gb rb)).send.level = 0 := h0
+          have := hW.w1
+          omega
       · apply idle
         · cases op with
           | send x m => trivial
